@@ -33,6 +33,31 @@ def _with_perm(dss, rng):
     return out
 
 
+def equal_means(rng, count):
+    """two elements with EQUAL mean scores obtained from DIFFERENT numbers of rankings (totals t and b*t over k and b*k
+    rankings): a block of k rankings in which x is tied with y, then b-1 copies of the block without x"""
+    out = []
+    for _ in range(count):
+        k = rng.randint(2, 4)
+        b = rng.choice([2, 3, 5, 7])
+        block = []
+        for _ in range(k):
+            others = [3, 4][:rng.randint(1, 2)]
+            rng.shuffle(others)
+            cut = rng.randint(0, len(others))
+            r = [[e] for e in others[:cut]] + [[1, 2]] + [[e] for e in others[cut:]]
+            if rng.random() < .3 and len(r) > 1:
+                j = rng.randrange(len(r) - 1)
+                r[j:j + 2] = [sorted(r[j] + r[j + 1])]
+            block.append(r)
+        D = [[list(bk) for bk in r] for r in block]
+        for _ in range(b - 1):
+            for r in block:
+                D.append([bk2 for bk2 in ([e for e in bk if e != 1] for bk in r) if bk2])
+        out.append(D)
+    return out
+
+
 def stages(tier, rng, only=None):
     cfgs = ["Borda", "BordaBid"]
     out = [ac.stage("grid3x2", PID, lambda: ac.cases(grids.datasets(3, 2), cfgs, SCHEMES, flags=(0,),
@@ -45,6 +70,8 @@ def stages(tier, rng, only=None):
     out.append(ac.stage("many_rankings", PID, lambda: ac.cases(
         [ac.random_dataset(rng, 4, 30, nmin=2) for _ in range(n_rand // 2)], cfgs, FAM, flags=(0,),
         namings=["ints", "letters"]), _nt))
+    out.append(ac.stage("equal_means", PID, lambda: ac.cases(equal_means(rng, n_rand // 2), cfgs, FAM, flags=(0,),
+                                                             all_schemes=True, namings=["ints", "letters"]), _nt))
     if tier == "thorough":
         out.append(ac.stage("grid3x3", PID, lambda: ac.cases(grids.datasets(3, 3), cfgs, SCHEMES, flags=(0,)), _nt))
         out.append(ac.stage("grid4x2", PID, lambda: ac.cases(grids.datasets(4, 2), cfgs, SCHEMES, flags=(0,)), _nt))
